@@ -539,6 +539,20 @@ func (k *c19) indexDischarged(f *ssa.Function, at ssa.Instruction, X, idx ssa.Va
 	if c.Path(idx, nil) == "("+lenX+" - 1)" && k.lenAtLeast(f, at, lenX, 1) {
 		return true
 	}
+	// position found by a search function: i := IndexByte(A, x) with i >= 0 (or != -1) on a dominating edge gives
+	// 0 <= i < len(A); fine for X == A, or for two package-level slice literals with len(X) >= len(A)
+	if cl, ok := idx.(*ssa.Call); ok && isIndexSearch(cl) && len(cl.Call.Args) >= 1 {
+		ip := c.Path(idx, nil)
+		found := anyOf("search result >= 0", cmpAccept("i >= 0", token.GEQ, pathIs(ip), pathIs("0")), cmpReject("i < 0 rejected", token.LSS, pathIs(ip), pathIs("0")), cmpReject("i == -1 rejected", token.EQL, pathIs(ip), pathIs("-1")), cmpAccept("i != -1", token.NEQ, pathIs(ip), pathIs("-1")))
+		if ok2, _, n := c.Guard(f, nil, found, func(in ssa.Instruction) bool { return in == at }); ok2 && n > 0 {
+			if c.Path(cl.Call.Args[0], nil) == xp {
+				return true
+			}
+			if la, lx := k.globalLiteralLen(cl.Call.Args[0]), k.globalLiteralLen(X); la > 0 && lx >= la {
+				return true
+			}
+		}
+	}
 	// comparator of sort.Slice(x, less): the library guarantees 0 <= i, j < len(x)
 	if p, ok := idx.(*ssa.Parameter); ok && k.isSortLessOf(f, X) && paramIndex(p) < 2 {
 		return true
@@ -577,6 +591,12 @@ func (k *c19) indexDischarged(f *ssa.Function, at ssa.Instruction, X, idx ssa.Va
 		rp := c.Path(r, nil)
 		if rp == lenX {
 			return true
+		}
+		// len of the very same SSA value (canonical paths of deeply nested φs are abbreviated and may differ)
+		if lc, isC := r.(*ssa.Call); isC {
+			if bi, isB := lc.Call.Value.(*ssa.Builtin); isB && bi.Name() == "len" && len(lc.Call.Args) == 1 && lc.Call.Args[0] == X {
+				return true
+			}
 		}
 		// idx < L where L is the smaller of two lengths, one of them len(X): L = φ(len(A), len(B)) chosen by a comparison
 		if k.atMostLen(r, lenX) {
@@ -650,6 +670,34 @@ func (k *c19) atMostLen(v ssa.Value, lenX string) bool {
 		}
 	}
 	return len(phi.Edges) > 0
+}
+
+// globalLiteralLen: v is a load of a package-level slice variable that is assigned exactly once, a literal, in the
+// package initialiser (and whose address is taken nowhere else); returns the literal's length, 0 otherwise.
+func (k *c19) globalLiteralLen(v ssa.Value) int {
+	ld, ok := v.(*ssa.UnOp)
+	if !ok || ld.Op != token.MUL {
+		return 0
+	}
+	g, ok := ld.X.(*ssa.Global)
+	if !ok || g.Pkg == nil {
+		return 0
+	}
+	for _, f := range k.c.Funcs {
+		bad := false
+		if f.Synthetic != "" && f.Name() == "init" {
+			continue // the package initialiser holds the one literal assignment
+		}
+		forEachInstr(f, func(in ssa.Instruction) {
+			if st, isS := in.(*ssa.Store); isS && st.Addr == ssa.Value(g) {
+				bad = true
+			}
+		})
+		if bad {
+			return 0
+		}
+	}
+	return len(k.c.globalSliceLiteral(g))
 }
 
 func nonNegative(v ssa.Value) bool {
@@ -1246,9 +1294,54 @@ func (k *c19) constructedOnly(f *ssa.Function, ta *ssa.TypeAssert) string {
 		}
 		return ""
 	}
-	// (b) m[K].(T) where m has a module-named map type: every MapUpdate with that constant key in the module stores a T
+	return k.mapValueProvenance(f, ta.X, ta.AssertedType, 2)
+}
+
+// mapValueProvenance: v is m[K] where m has a module-named map type and every MapUpdate with that constant key in
+// the module stores a value of type T; or v is a parameter of an unexported module function each of whose static
+// call sites passes such a value (the assertion was moved into a helper).
+func (k *c19) mapValueProvenance(f *ssa.Function, v ssa.Value, T types.Type, depth int) string {
+	c := k.c
+	if p, isP := v.(*ssa.Parameter); isP && depth > 0 && f != nil && f.Object() != nil && !f.Object().Exported() {
+		pi := -1
+		for i, q := range f.Params {
+			if q == p {
+				pi = i
+			}
+		}
+		n := 0
+		why := ""
+		for _, g := range c.Funcs {
+			bad := false
+			forEachInstr(g, func(in ssa.Instruction) {
+				ci, ok := in.(ssa.CallInstruction)
+				if !ok || ci.Common().StaticCallee() != f || ci.Common().IsInvoke() {
+					return
+				}
+				args := ci.Common().Args
+				if pi < 0 || pi >= len(args) {
+					bad = true
+					return
+				}
+				w := k.mapValueProvenance(g, args[pi], T, depth-1)
+				if w == "" {
+					bad = true
+					return
+				}
+				n++
+				why = w
+			})
+			if bad {
+				return ""
+			}
+		}
+		if n > 0 && !k.addressTaken(f) {
+			return fmt.Sprintf("parameter of the unexported %s; at each of its %d call sites: %s", short(f.String()), n, why)
+		}
+		return ""
+	}
 	var lk *ssa.Lookup
-	switch x := ta.X.(type) {
+	switch x := v.(type) {
 	case *ssa.Lookup:
 		lk = x
 	case *ssa.Extract:
@@ -1281,15 +1374,43 @@ func (k *c19) constructedOnly(f *ssa.Function, ta *ssa.TypeAssert) string {
 				return
 			}
 			n++
-			if mi, isMI := mu.Value.(*ssa.MakeInterface); !isMI || !types.Identical(mi.X.Type(), ta.AssertedType) {
+			if mi, isMI := mu.Value.(*ssa.MakeInterface); !isMI || !types.Identical(mi.X.Type(), T) {
 				bad++
 			}
 		})
 	}
 	if n > 0 && bad == 0 {
-		return fmt.Sprintf("every one of the %d stores of key %s into a %s in the module stores a %s (the map is produced by library code, not decoded from input)", n, c.Path(kc, nil), typeShort(nt), typeShort(ta.AssertedType))
+		return fmt.Sprintf("every one of the %d stores of key %s into a %s in the module stores a %s (the map is produced by library code, not decoded from input)", n, c.Path(kc, nil), typeShort(nt), typeShort(T))
 	}
 	return ""
+}
+
+// addressTaken: the function is used as a value somewhere (so not every call is a static call).
+func (k *c19) addressTaken(f *ssa.Function) bool {
+	for _, g := range k.c.Funcs {
+		taken := false
+		forEachInstr(g, func(in ssa.Instruction) {
+			var ops []*ssa.Value
+			for _, op := range in.Operands(ops) {
+				if *op == ssa.Value(f) {
+					if ci, ok := in.(ssa.CallInstruction); ok && ci.Common().Value == ssa.Value(f) {
+						// the callee position of a static call; arguments are checked below
+						for _, a := range ci.Common().Args {
+							if a == ssa.Value(f) {
+								taken = true
+							}
+						}
+						continue
+					}
+					taken = true
+				}
+			}
+		})
+		if taken {
+			return true
+		}
+	}
+	return false
 }
 
 // isSortLessOf: f is a function literal passed as `less` to sort.Slice / SliceStable (X is the captured slice).
